@@ -235,12 +235,8 @@ theorem emit_jumps_local (cfg : Cfg) (n : GoNode) (a : Nat) (tb : Tables) (h : n
     `opcodeSize` gives its opcode (so `Codes` splits into exactly these instructions), string / set
     operands index the emitted tables, capture operands are slots below `Capsize` (or −1 where the
     interpreter allows it), every jump operand is the first word of an instruction of the program, the first
-    instruction is `Lazybranch` and the last is `Stop`.
-
-    Full statement (not proved here; `wfProg` is evaluated by leg Wr on every explored program):
-    `treeWf ti root = true → wfProg (emit ti root) = true`.  Missing: the transfer from the instruction list
-    to the array-level decoder `Code.Prog.boundaries` / `Writer.instrOk`. -/
-theorem emit_wf_partial (ti : TreeInfo) (root : GoNode) (hok : root.ok = true)
+    instruction is `Lazybranch` and the last is `Stop`. -/
+theorem emit_wf_instructions (ti : TreeInfo) (root : GoNode) (hok : root.ok = true)
     (hcaps : capsOk (mainCfg ti) (capsize ti) root = true) :
     (∀ i ∈ mainCode ti root,
       i.localOk (emit ti root).strings.size (emit ti root).nsets (emit ti root).capsize = true) ∧
@@ -256,6 +252,19 @@ theorem emit_wf_partial (ti : TreeInfo) (root : GoNode) (hok : root.ok = true)
   · simp only [mainCode, codeFromTree, List.cons_append, List.nil_append, List.head?_cons, Option.map_some]; rfl
   · simp only [mainCode, codeFromTree, List.getLast?_concat, Option.map_some]; rfl
   · simp [emit, mainCode]
+
+/-- **(c) `emit_wf`: the program of every well-formed tree passes the executable check `wfProg`.**  Under the
+    tree well-formedness the parser guarantees (`treeWf`, evaluated by leg Wr on every parsed tree):
+    `Code.Prog.boundaries` succeeds (every opcode known, no truncated instruction), string / set operands are
+    in range, capture operands are below `Capsize` (or −1), every jump target is an instruction boundary,
+    the program starts with `Lazybranch` and ends with `Stop`.  (For the bool-only program the same check is
+    evaluated by leg Wr on every explored pattern; its proof needs in addition that both writers build the
+    same tables.) -/
+theorem emit_wf (ti : TreeInfo) (root : GoNode) (h : treeWf ti root = true) : wfProg (emit ti root) = true := by
+  simp only [treeWf, Bool.and_eq_true] at h
+  obtain ⟨⟨hok, hcaps⟩, _⟩ := h
+  obtain ⟨h1, h2, h3, h4, _⟩ := emit_wf_instructions ti root hok hcaps
+  exact wfProg_progOf (mainCode ti root) _ _ _ _ _ _ h1 h2 h3 h4
 
 /-- **(d) `TrackCount` is the number of backtracking instructions, and `Nullmark` is paid for by `Goto`.**
     Decoding `Codes` with the regenerated `opcodeSize` table (C13's `Capacity.decode`) succeeds, the
